@@ -197,7 +197,7 @@ fn main() {
         }
         // F. growth across many small regions, inside one transaction and across transactions, then shrinking and compaction:
         // every new region starts partial (the file is extended to what is needed, not to a whole region)
-        for (variant, (page_size, region)) in [(512usize, 1u64 << 14), (512, 1 << 15), (1024, 1 << 15), (512, 3 << 19), (4096, 3 << 19), (1024, 5 << 18)].into_iter().enumerate() {
+        for (variant, (page_size, region)) in [(512usize, 1u64 << 14), (512, 1 << 15), (1024, 1 << 15), (512, 1 << 21), (4096, 1 << 21), (1024, 1 << 21)].into_iter().enumerate() {
             // (the last three: a region larger than the initial file - the first growth turns one region into a full one
             // plus a partial one)
             let cfg = Config { seed: seed + variant as u64, page_size, region_size: Some(region), cache_size: [1 << 20, 0, 1 << 14][variant % 3], nkeys: 64,
@@ -210,7 +210,7 @@ fn main() {
                     let w = db.begin_write().unwrap();
                     {
                         let mut t = w.open_table(T).unwrap();
-                        for k in 0..(700 + 300 * round) {
+                        for k in 0..(700 + 300 * round) * if variant >= 3 { 3 } else { 1 } {
                             t.insert(k + 10_000 * round, vec![(k + round) as u8; page_size * 2 + 100 + (k as usize % 7) * 90].as_slice()).unwrap();
                         }
                     }
@@ -218,7 +218,7 @@ fn main() {
                     let w = db.begin_write().unwrap();
                     {
                         let mut t = w.open_table(T).unwrap();
-                        for k in 0..(500 + 250 * round) {
+                        for k in 0..(500 + 250 * round) * if variant >= 3 { 3 } else { 1 } {
                             t.remove(k + 10_000 * round).unwrap();
                         }
                     }
